@@ -281,8 +281,15 @@ def check(case, ctx):
     a = outcome(spec, text)
     b = outcome(spec2, text2)
     ctx.count('%s_%s_%s' % (tk, a[0], 'changed' if changed else 'identity'))
+    if a[0] == 'exc' and b[0] == 'exc':
+        ctx.count('other_exception_both')
+        return
     if a[0] == 'exc' or b[0] == 'exc':
-        ctx.count('other_exception')
+        label = tk + (':' + case['style'] if tk == 'T2' else '')
+        ctx.finding('invariance', label + ':exception_on_one_side',
+                    'original: %s %s\n  transformed: %s %s\n  text: %r\n  transformed text: %r\n  model: %s'
+                    % (a[0], a[1] if a[0] != 'ok' else canon(a[1]), b[0],
+                       b[1] if b[0] != 'ok' else canon(b[1]), text, text2, spec))
         return
     if changed:
         ctx.nontriv([spec, text, tk, case.get('style'), case.get('rot'), case.get('pos'),
